@@ -164,16 +164,55 @@ Notation bn := (Z * Z * Z)%type.
 Definition bn_eqb (a b : bn) : bool :=
   let '(a1, a2, a3) := a in let '(b1, b2, b3) := b in
   Z.eqb a1 b1 && Z.eqb a2 b2 && Z.eqb a3 b3.
+(* A version component is an integer >= 0, or the string '?' that get_saved_build_number
+   (ghist.py:1496) uses when no saved version can be read: [qm].  BuildNumData.cmp
+   (ghist.py:329-351, _cmp_opt_ints): two integers compare numerically, an integer is
+   smaller than a non-integer, two non-integers are equal. *)
+Definition qm : Z := (-1)%Z.
+Definition is_int (x : Z) : bool := Z.leb 0 x.
+Definition cmp_opt_ints (a b : Z) : Z :=
+  if is_int a && is_int b then (a - b)%Z
+  else if is_int a then (-1)%Z else if is_int b then 1%Z else 0%Z.
 (* BuildNumData.cmp <= 0 *)
 Definition bn_leb (a b : bn) : bool :=
   let '(a1, a2, a3) := a in let '(b1, b2, b3) := b in
-  if Z.eqb a1 b1 then (if Z.eqb a2 b2 then Z.leb a3 b3 else Z.ltb a2 b2) else Z.ltb a1 b1.
+  let r1 := cmp_opt_ints a1 b1 in
+  if negb (Z.eqb r1 0) then Z.ltb r1 0
+  else let r2 := cmp_opt_ints a2 b2 in
+       if negb (Z.eqb r2 0) then Z.ltb r2 0
+       else Z.leb (cmp_opt_ints a3 b3) 0.
+
+(* ---- from a build tag to a build number (ghist.py:1413-1438, 1734-1770) ----
+   A tag is  build_<n>_<branch text>_success.  The harness tells the model which of the three
+   routes of RepoBuildsByTagDetector.finalize_build_tag_info the tag takes:
+     TagFull M m     parse_buildtag already delivered major and minor (overridden tag format);
+     TagRelease M m  the branch text is release_<M>_<m>: guess_major_minor_build_by_tag_substr
+                     returns (M, m) and the test is `major is not None`  -- M = 0 is a version;
+     TagWord         any other branch text: major and minor come from the version file saved in
+                     the commit ([Some (M, m)]), or are '?' when there is none / it is unreadable.
+   patch = build = n on all three routes. *)
+Inductive tagsrc := TagFull (M m : Z) | TagRelease (M m : Z) | TagWord.
+Notation rawtag := (tagsrc * Z)%type.
+Definition guess_by_tag (s : tagsrc) : option (Z * Z) :=
+  match s with TagRelease M m => Some (M, m) | _ => None end.
+Definition finalize_tag (saved : option (Z * Z)) (t : rawtag) : bn :=
+  let n := snd t in
+  match fst t with
+  | TagFull M m => (M, m, n)
+  | s => match guess_by_tag s with
+         | Some (M, m) => (M, m, n)
+         | None => match saved with Some (M, m) => (M, m, n) | None => (qm, qm, n) end
+         end
+  end.
 Fixpoint bn_insert (x : bn) (l : list bn) : list bn :=
   match l with
   | [] => [x]
   | y :: r => if bn_leb x y then x :: l else y :: bn_insert x r
   end.
 Definition bn_sort (l : list bn) : list bn := fold_right bn_insert [] l.
+(* get_builds_numbers: the finalized build numbers of a commit, ascending (stable) *)
+Definition builds_numbers (saved : option (Z * Z)) (tags : list rawtag) : list bn :=
+  bn_sort (map (finalize_tag saved) tags).
 Definition fake_not_built : bn := (8888, 8888, 8888)%Z.
 Definition fake_not_merged : bn := (9999, 9999, 9999)%Z.
 
